@@ -4,6 +4,7 @@ import XModel.ManagerC18
 import XModel.ManagerC18Fn
 import XModel.ManagerC18Multi
 import XModel.KnobFaultWitness
+import XModel.ManagerC18Expr
 import XProofs.Properties.C01
 /-!
 # C18 — a failure in the middle of an update is reported and fully recoverable
@@ -23,6 +24,14 @@ definition, assuming the repeat completes.  **For linear knobs the recovery clau
 code alike** (`C18_knob_recovery_fails` below; known finding D34): `LinearKnob.run` adds `w_i * (value - prev_value)` to
 each target in turn and remembers the new value only after the last one, so a fault between two targets makes the
 repeat add the increment to the earlier targets a second time.  In that sense all `C18_recover*` theorems are `_partial`.
+
+**Expression assignments** (`ref[k] = <expression>` / `set_value(ref, expr)`): `C18_recover_expression_assignment` (one
+faulty attempt, all four clauses of the property), `C18_recover_expression_after_several_faults`(`_by_value`) (any number
+of faulty attempts).  Reading of "the definitions are unchanged": unchanged BY THE FAULT — `set_value` unregisters the old
+task and registers the new `ExprTask` before the first container write, so after a fault at any write, the write of
+the assigned location itself included, the new definition is in force while the data are partially updated.  The
+hypotheses are those of the fault-free theorem `C01_set_expr` (`Scope` at the committed state, a legal schedule); the
+repeat re-registers the task, so its schedule is asked to be legal for the re-registered indices.
 -/
 namespace Properties.C18
 open Store Push Index Manager
@@ -147,6 +156,149 @@ example : (setValue id { failed with faultIn := none } da (.int 5)).2 = none ∧
     get (setValue id { failed with faultIn := none } da (.int 5)).1.store de = .ok (.int 35) := ⟨rfl, rfl⟩
 end example_
 
+
+/-! ### a failure in the middle of an EXPRESSION assignment -/
+
+/-- **`ref[k] = <expression>` with a failing container write, all clauses of C18.**  `s` is a state reachable through the
+    API in which every definition holds, not frozen; `Scope (defPart s p e) p` and `hvs` are the hypotheses of
+    `C01_set_expr` (`defPart s p e` = the manager after `unregister(old task)`, `register(ExprTask(p, e))`).  Run
+    `set_value(p, e)` with the k-th container write raising (`k = some 0`: the write of `p` itself; `none`: no fault):
+    (i) `Manager.tasks` and the four indices are those of the fault-free call — the new definition is committed,
+        nothing touches the graph while tasks run;
+    (ii) every definition other than the new one whose task was not scheduled still holds;
+    (iii) if the call raised `x`, the caller got the exception of the failing step: `expr._get_value()` raised it and
+        nothing was written, or `ref._set_value` did and the containers are as before, or the task `t` of the schedule
+        did after exactly the tasks scheduled before it (`pre`) had completed, and none scheduled after it (`post`) ran;
+    (iv) once the fault is gone, repeating `ref[k] = <the same expression>` — under any iteration order of the sets that
+        is a legal schedule for the re-registered indices — when it completes leaves EVERY expression-defined location
+        equal to its definition; and so does `q = <any value>` for any plain location `q` the new expression reads. -/
+theorem C18_recover_expression_assignment (sched : Sched) (s : MState) (p : Path) (e : Expr) (k : Option Nat)
+    (hi : MInv s) (hc : Consistent s) (hf : s.frozen = false) (sc : Scope (defPart s p e) p)
+    (hvs : ValidSched (gOf (defPart s p e).idx) (findTaskids (defPart s p e).idx (chainR p))
+      (sched (findTaskids (defPart s p e).idx (chainR p)))) :
+    SameGraph (defPart s p e) (setExpr sched { s with faultIn := k } p e).1 ∧
+    (∀ t ∈ (defPart s p e).defs, t.id ≠ p → t.id ∉ sched (findTaskids (defPart s p e).idx (chainR p)) →
+      (exprSys pySem).Q (toE t) (setExpr sched { s with faultIn := k } p e).1.store) ∧
+    (∀ (sf : MState) (x : Err), setExpr sched { s with faultIn := k } p e = (sf, some x) →
+      (evalE (defPart s p e) e = .error x ∧ sf = { defPart s p e with faultIn := k }) ∨
+      ∃ v, evalE (defPart s p e) e = .ok v ∧
+        ((writeRef { defPart s p e with faultIn := k } p v = (sf, some x) ∧ sf.store = s.store) ∨
+         ∃ sw pre t post sm, writeRef { defPart s p e with faultIn := k } p v = (sw, none) ∧
+           t ∈ (defPart s p e).defs ∧ t.id ∈ findTaskids (defPart s p e).idx (chainR p) ∧
+           (pre ++ t :: post).map (·.id) = sched (findTaskids (defPart s p e).idx (chainR p)) ∧
+           runTasks sw pre = (sm, none) ∧ runTask sm t = (sf, some x))) ∧
+    (∀ (sched' : Sched) (s' : MState),
+      ValidSched (gOf (defPart (defPart s p e) p e).idx) (findTaskids (defPart (defPart s p e) p e).idx (chainR p))
+        (sched' (findTaskids (defPart (defPart s p e) p e).idx (chainR p))) →
+      setExpr sched' { (setExpr sched { s with faultIn := k } p e).1 with faultIn := none } p e = (s', none) →
+      Consistent s' ∧ s'.defs = (defPart s p e).defs ∧ MInv s') ∧
+    (∀ (sched' : Sched) (q : Path) (w : Val) (s' : MState), q ∈ leafRefs e →
+      lookDef (defPart s p e).defs q = none → Scope (defPart s p e) q →
+      ValidSched (gOf (defPart s p e).idx) (findTaskids (defPart s p e).idx (chainR q))
+        (sched' (findTaskids (defPart s p e).idx (chainR q))) →
+      setValue sched' { (setExpr sched { s with faultIn := k } p e).1 with faultIn := none } q w = (s', none) →
+      Consistent s' ∧ s'.defs = (defPart s p e).defs ∧ s'.idx = (defPart s p e).idx ∧ MInv s') :=
+  recover_exec_setExpr sched s p e k hi hc hf sc hvs
+
+/-- the recovery half alone, every hypothesis a Boolean test the driver evaluates: the line of the faulty attempt
+    passes `exprFaultScopeB` (evidence counter `lines_in_expression_fault_scope`), the line of the repeat passes the
+    ordinary scope test of an expression assignment -/
+theorem C18_recover_expression_assignment_decided (sched sched' : Sched) (s : MState) (p : Path) (e : Expr)
+    (k : Option Nat) (hi : MInv s) (h : exprFaultScopeB sched s p e = true)
+    (hsc' : scopeB (defPart (defPart { s with faultIn := none } p e) p e) p = true)
+    (hv' : validSchedule (defPart (defPart { s with faultIn := none } p e) p e).idx (chainR p)
+      (sched' (findTaskids (defPart (defPart { s with faultIn := none } p e) p e).idx (chainR p))) = true)
+    (s' : MState)
+    (hok : setExpr sched' { (setExpr sched { s with faultIn := k } p e).1 with faultIn := none } p e = (s', none)) :
+    Consistent s' ∧ s'.defs = (defPart { s with faultIn := none } p e).defs ∧ MInv s' ∧ s'.frozen = false ∧
+      s'.faultIn = none :=
+  recover_exec_setExpr_decided sched sched' s p e k hi h hsc' hv' s' hok
+
+/-- **several faulty updates in a row, then the fault-free repeat of the expression assignment**: the first attempt of
+    `ref[k] = <expression>` (cut at `k0` or not) commits the definition; any number of retries follow, each with its own
+    fault point and its own iteration order of the sets (`LegalFor`: a legal schedule for every index state of the
+    committed task table — a retry re-registers the task, which may permute the insertion order of the indices; the
+    order `find_taskids` computes and every fixed legal list are such, `legalFor_id`, `legalFor_const`); the final
+    fault-free repeat, when it completes, leaves every definition holding and the task table is the committed one -/
+theorem C18_recover_expression_after_several_faults (s : MState) (p : Path) (e : Expr) (sched0 : Sched)
+    (k0 : Option Nat) (l : List EAttempt) (sched' : Sched) (q : Path) (hi : MInv s) (hc : Consistent s)
+    (hf : s.frozen = false) (sc : Scope (defPart s p e) p)
+    (hvs0 : ValidSched (gOf (defPart s p e).idx) (findTaskids (defPart s p e).idx (chainR p))
+      (sched0 (findTaskids (defPart s p e).idx (chainR p))))
+    (hex : ∀ a ∈ l, a.isExpr = true) (hl : ∀ a ∈ l, a.Legal (defPart s p e).defs p q)
+    (hl' : LegalFor (defPart s p e).defs p sched') (s' : MState)
+    (hok : setExpr sched'
+      { attemptsE p e q (setExpr sched0 { s with faultIn := k0 } p e).1 l with faultIn := none } p e = (s', none)) :
+    Consistent s' ∧ s'.defs = (defPart s p e).defs ∧ MInv s' ∧ s'.frozen = false ∧ s'.faultIn = none :=
+  setExpr_recover_multi s p e sched0 k0 l sched' q hi hc hf sc hvs0 hex hl hl' s' hok
+
+/-- **several faulty updates of expression AND value assignments in a row**: after the first attempt of
+    `ref[k] = <expression>`, any number of attempts, each either a retry of it or `q = <value>` for a plain location `q`
+    the expression reads, each with its own fault point, schedule and value; a final fault-free `q = <value>`, when it
+    completes, leaves every definition holding -/
+theorem C18_recover_expression_after_several_faults_by_value (s : MState) (p : Path) (e : Expr) (sched0 : Sched)
+    (k0 : Option Nat) (l : List EAttempt) (sched' : Sched) (q : Path) (w : Val) (hi : MInv s) (hc : Consistent s)
+    (hf : s.frozen = false) (sc : Scope (defPart s p e) p)
+    (hvs0 : ValidSched (gOf (defPart s p e).idx) (findTaskids (defPart s p e).idx (chainR p))
+      (sched0 (findTaskids (defPart s p e).idx (chainR p))))
+    (hq : q ∈ leafRefs e) (hqd : lookDef (defPart s p e).defs q = none) (scq : Scope (defPart s p e) q)
+    (hl : ∀ a ∈ l, a.Legal (defPart s p e).defs p q)
+    (hl' : LegalFor (defPart s p e).defs q sched') (s' : MState)
+    (hok : setValue sched'
+      { attemptsE p e q (setExpr sched0 { s with faultIn := k0 } p e).1 l with faultIn := none } q w = (s', none)) :
+    Consistent s' ∧ s'.defs = (defPart s p e).defs ∧ MInv s' ∧ s'.frozen = false ∧ s'.faultIn = none :=
+  setExpr_recover_multi_by_value s p e sched0 k0 l sched' q w hi hc hf sc hvs0 hq hqd scq hl hl' s' hok
+
+/-! non-vacuity: `d = {a: 5, b: 2, c: 7, e: 14}`, `c = a + b`, `e = c * 2`; the assignment `d.c = a * b` -/
+section example_expr
+open Manager.C18ExprExample
+open Manager.C18MultiExample (sE)
+open Manager.C18FnExample (da dc de)
+
+/-- every hypothesis of the theorems holds for this state and expression (Boolean tests, `decide`) -/
+example : exprFaultScopeB id sE dc eNew = true ∧ scopeB (defPart dE dc eNew) dc = true ∧
+    validSchedule (defPart dE dc eNew).idx (chainR dc) (id (findTaskids (defPart dE dc eNew).idx (chainR dc))) = true :=
+  ⟨sE_expr_hyps.1, sE_expr_hyps.2.1, sE_expr_hyps.2.2.1⟩
+
+/-- the write of `e` raises (position 1): definition committed, `c = 10` new, `e = 14` stale; the repeat gives `e = 20` -/
+example : (setExpr id { sE with faultIn := some 1 } dc eNew).2 = some .fault ∧ exprOf failed1 dc = some eNew ∧
+    get failed1.store dc = .ok (.int 10) ∧ get failed1.store de = .ok (.int 14) ∧
+    (setExpr id { failed1 with faultIn := none } dc eNew).2 = none ∧
+    get (setExpr id { failed1 with faultIn := none } dc eNew).1.store de = .ok (.int 20) :=
+  ⟨rfl, rfl, rfl, rfl, rfl, rfl⟩
+
+/-- the write of `c` itself raises (position 0): definition committed, no data changed; the repeat repairs -/
+example : (setExpr id { sE with faultIn := some 0 } dc eNew).2 = some .fault ∧ exprOf failed0 dc = some eNew ∧
+    failed0.store = sE.store ∧ (setExpr id { failed0 with faultIn := none } dc eNew).2 = none ∧
+    get (setExpr id { failed0 with faultIn := none } dc eNew).1.store dc = .ok (.int 10) ∧
+    get (setExpr id { failed0 with faultIn := none } dc eNew).1.store de = .ok (.int 20) :=
+  ⟨rfl, rfl, rfl, rfl, rfl, rfl⟩
+
+/-- the conclusions, obtained from the theorems: repeat after a fault at position 1 / 0, the value assignment `a = 3`,
+    four more faulty attempts then `a = 6`, three faulty retries then the repeat -/
+example : Consistent (setExpr id { failed1 with faultIn := none } dc eNew).1 ∧
+    Consistent (setExpr id { failed0 with faultIn := none } dc eNew).1 ∧
+    Consistent (setValue id { failed1 with faultIn := none } da (.int 3)).1 ∧
+    Consistent (setValue id { afterMixed with faultIn := none } da (.int 6)).1 ∧
+    Consistent (setExpr id { attemptsE dc eNew da failed1 retries with faultIn := none } dc eNew).1 :=
+  ⟨failed1_recovered, failed0_recovered, failed1_recovered_by_value, mixed_recovered, retries_recovered⟩
+end example_expr
+
+/-- **outside the scope: a new expression that reads its own target** (`d.c = d.c + d.a`; `Scope` excludes it, H3, exactly
+    as `C01_set_expr` does; the Boolean tests reject it).  `set_value` evaluates `7 + 5`, writes `12`, then runs the new
+    task once more because it depends on the location just written: the fault-free call ends with `c = 17`, `e = 34`.
+    With the second write of `c` raising and the assignment repeated: `c = 22`, `e = 44` — neither the state of the
+    fault-free call, nor one in which `c` equals its definition.  The real code gives the same numbers. -/
+theorem C18_expression_self_read_outside_scope :
+    scopeB (defPart Manager.C18MultiExample.sE Manager.C18FnExample.dc Manager.C18ExprExample.eSelf)
+      Manager.C18FnExample.dc = false ∧
+    get (setExpr id Manager.C18MultiExample.sE Manager.C18FnExample.dc Manager.C18ExprExample.eSelf).1.store
+      Manager.C18FnExample.dc = .ok (.int 17) ∧
+    get (setExpr id { (setExpr id { Manager.C18MultiExample.sE with faultIn := some 1 } Manager.C18FnExample.dc
+        Manager.C18ExprExample.eSelf).1 with faultIn := none } Manager.C18FnExample.dc
+        Manager.C18ExprExample.eSelf).1.store Manager.C18FnExample.dc = .ok (.int 22) :=
+  ⟨Manager.C18ExprExample.self_read_outside_scope.1, Manager.C18ExprExample.self_read_recovery_fails.2.1,
+   Manager.C18ExprExample.self_read_recovery_fails.2.2.2.2.2.2.1⟩
 
 /-! ### the recovery clause fails for linear knobs (known finding D34) -/
 
